@@ -994,6 +994,8 @@ class StochasticTMLE:
             pred2 = probability_bounds(pred, bounds=bound)
             self._specified_bound_ = np.sum(np.where(pred2 == pred, 0, 1))
             pred = pred2
+        else:
+            self._specified_bound_ = None
 
         self._denominator_ = np.where(self.df[self.exposure] == 1, pred, 1 - pred)
 
